@@ -1256,8 +1256,29 @@ Definition complete_and_validate (a : gast) : outcome (option yerr) :=
 (* ======================================================================== *)
 Definition mem_str (l : list str) (n : str) : bool := existsb (str_eqb n) l.
 
-(* the [while let Some(pidx) = todo.pop()] loop *)
-Fixpoint seen_loop (f : nat) (a : gast) (todo : list nat) (seen_r seen_t : list str)
+(* the [while let Some(pidx) = todo.pop()] loop.  [fixed_precused] = /repo 4ff022d: the token
+   named by [%prec] of a popped (= reachable) production is inserted into [seen_tokens] before the
+   production's symbols are walked; the code before that commit looked at the symbols only *)
+Definition add_str (l : list str) (n : str) : list str := if mem_str l n then l else n :: l.
+
+Definition seen_prec (fixed_precused : bool) (p : production) (seen_t : list str) : list str :=
+  if fixed_precused then match p_prec p with Some n => add_str seen_t n | None => seen_t end
+  else seen_t.
+
+Definition seen_sym (a : gast) (acc : list nat * list str * list str) (s : symbol)
+  : list nat * list str * list str :=
+  let '(td, sr, stk) := acc in
+  match s with
+  | SRule n _ =>
+      if mem_str sr n then acc
+      else match get_rule (a_rules a) n with
+           | Some r => (td ++ r_pidxs r, n :: sr, stk)
+           | None => (td, n :: sr, stk)
+           end
+  | SToken n _ => (td, sr, add_str stk n)
+  end.
+
+Fixpoint seen_loop (fixed_precused : bool) (f : nat) (a : gast) (todo : list nat) (seen_r seen_t : list str)
   : outcome (list str * list str) :=
   match f with
   | 0 => OutOfFuel
@@ -1267,46 +1288,46 @@ Fixpoint seen_loop (f : nat) (a : gast) (todo : list nat) (seen_r seen_t : list 
       | pidx :: rtodo =>
           do p <- nth_checked (a_prods a) pidx;
           let '(todo', sr, stk) :=
-            fold_left (fun (acc : list nat * list str * list str) (s : symbol) =>
-                         let '(td, sr, stk) := acc in
-                         match s with
-                         | SRule n _ =>
-                             if mem_str sr n then acc
-                             else match get_rule (a_rules a) n with
-                                  | Some r => (td ++ r_pidxs r, n :: sr, stk)
-                                  | None => (td, n :: sr, stk)
-                                  end
-                         | SToken n _ => (td, sr, if mem_str stk n then stk else n :: stk)
-                         end) (p_syms p) (rev rtodo, seen_r, seen_t) in
-          seen_loop f' a todo' sr stk
+            fold_left (seen_sym a) (p_syms p) (rev rtodo, seen_r, seen_prec fixed_precused p seen_t) in
+          seen_loop fixed_precused f' a todo' sr stk
       end
   end.
 
 Inductive wkind := UnusedRule | UnusedToken.
 
-Definition warnings (a : gast) : outcome (list (wkind * span)) :=
+(* [seen_rules] / [seen_tokens] after the reachability walk from the start rule *)
+Definition seen_of (fixed_precused : bool) (a : gast) : outcome (list str * list str) :=
   let start_rule := match a_start a with Some (n, _) => get_rule (a_rules a) n | None => None end in
+  match start_rule with
+  | Some r => seen_loop fixed_precused (S (List.length (a_prods a))) a (r_pidxs r) [r_name r] []
+  | None => Done ([], [])
+  end.
+
+(* GrammarAST::unused_symbols with the name kept beside each entry: rules in [ast.rules] order,
+   then tokens in [ast.tokens] order; [symidx.symbol(self)] indexes ast.spans[idx] *)
+Definition unused (fixed_precused : bool) (a : gast) : outcome (list (wkind * str * span)) :=
   let eu_rules := flat_map (fun s => match s with SRule n _ => [n] | _ => [] end) (a_expect_unused a) in
   let eu_toks := flat_map (fun s => match s with SToken n _ => [n] | _ => [] end) (a_expect_unused a)
                  ++ match a_implicit_tokens a with Some it => map fst it | None => [] end in
-  do seen <- match start_rule with
-             | Some r => seen_loop (S (List.length (a_prods a))) a (r_pidxs r) [r_name r] []
-             | None => Done ([], [])
-             end;
+  do seen <- seen_of fixed_precused a;
   let '(seen_r, seen_t) := seen in
   let wr := flat_map (fun r => if mem_str eu_rules (r_name r) || mem_str seen_r (r_name r) then []
-                               else [(UnusedRule, r_span r)]) (a_rules a) in
-  (* symidx.symbol(self) indexes ast.spans[idx] *)
-  let fix toks (l : list str) (k : nat) : outcome (list (wkind * span)) :=
+                               else [(UnusedRule, r_name r, r_span r)]) (a_rules a) in
+  let fix toks (l : list str) (k : nat) : outcome (list (wkind * str * span)) :=
     match l with
     | [] => Done []
     | t :: l' =>
         do rest <- toks l' (S k);
         if mem_str eu_toks t || mem_str seen_t t then Done rest
-        else do sp <- nth_checked (a_spans a) k; Done ((UnusedToken, sp) :: rest)
+        else do sp <- nth_checked (a_spans a) k; Done ((UnusedToken, t, sp) :: rest)
     end in
   do wt <- toks (a_tokens a) 0;
   Done (wr ++ wt).
+
+(* GrammarAST::warnings: kind and span of each unused symbol *)
+Definition warnings (fixed_precused : bool) (a : gast) : outcome (list (wkind * span)) :=
+  do us <- unused fixed_precused a;
+  Done (map (fun x : wkind * str * span => (fst (fst x), snd x)) us).
 
 (* ======================================================================== *)
 (*  ASTWithValidityInfo::new                                                  *)
@@ -1323,15 +1344,15 @@ Inductive top :=
 
 Definition fuel_for (src : str) : nat := S (byte_len src).
 
-Definition yacc_new_gen (fixed fixed_aspan fixed_pspan : bool) (fuel : nat) (kind : ykind) (src : str) : outcome top :=
+Definition yacc_new_gen (fixed fixed_aspan fixed_pspan fixed_precused : bool) (fuel : nat) (kind : ykind) (src : str) : outcome top :=
   if header_present src then Done THeader else
   do r <- parse fixed fixed_aspan fixed_pspan kind src (byte_len src) fuel;
   let '(st, es) := r in
   do v <- complete_and_validate (ast st);
-  Done (TResult (ast st) (es ++ match v with Some e => [e] | None => [] end) (warnings (ast st))).
+  Done (TResult (ast st) (es ++ match v with Some e => [e] | None => [] end) (warnings fixed_precused (ast st))).
 
-(* the code as it is (/repo: block-comment scan bd895aa and production span 69c4b9b repaired,
-   action span not) *)
-Definition yacc_new := yacc_new_gen true false true.
-Definition run_case (fixed fixed_aspan fixed_pspan : bool) (kind : ykind) (src : str) : outcome top :=
-  yacc_new_gen fixed fixed_aspan fixed_pspan (fuel_for src) kind src.
+(* the code as it is (/repo: block-comment scan bd895aa, production span 69c4b9b and %prec tokens
+   counted as used 4ff022d repaired, action span not) *)
+Definition yacc_new := yacc_new_gen true false true true.
+Definition run_case (fixed fixed_aspan fixed_pspan fixed_precused : bool) (kind : ykind) (src : str) : outcome top :=
+  yacc_new_gen fixed fixed_aspan fixed_pspan fixed_precused (fuel_for src) kind src.
